@@ -7,6 +7,7 @@ use serde_json::value::RawValue;
 #[derive(Debug, Clone, PartialEq)]
 enum PVal {
 	U(u64),
+	I(i64),
 	S(String),
 	B(bool),
 	Any(String),
@@ -16,6 +17,7 @@ impl PVal {
 	fn repr(&self) -> String {
 		match self {
 			PVal::U(n) => n.to_string(),
+			PVal::I(n) => n.to_string(),
 			PVal::S(s) => hexs(s),
 			PVal::B(b) => b.to_string(),
 			PVal::Any(r) => hexs(r),
@@ -61,6 +63,9 @@ fn read_next(seq: &mut jsonrpsee_types::params::ParamsSequence<'_>, ty: &str, op
 	}
 	match ty {
 		"u64" => rd!(u64, PVal::U),
+		"u8" => rd!(u8, |v: u8| PVal::U(v as u64)),
+		"i64" => rd!(i64, PVal::I),
+		"i32" => rd!(i32, |v: i32| PVal::I(v as i64)),
 		"str" => rd!(String, PVal::S),
 		"bool" => rd!(bool, PVal::B),
 		"any" => rd!(Box<RawValue>, |v: Box<RawValue>| PVal::Any(v.get().to_string())),
@@ -91,6 +96,9 @@ fn whole<'a>(p: &'a Params<'a>, ty: &str, verb: &str) -> Got {
 	}
 	match ty {
 		"u64" => w!(u64, PVal::U),
+		"u8" => w!(u8, |v: u8| PVal::U(v as u64)),
+		"i64" => w!(i64, PVal::I),
+		"i32" => w!(i32, |v: i32| PVal::I(v as i64)),
 		"str" => w!(String, PVal::S),
 		"bool" => w!(bool, PVal::B),
 		"any" => w!(Box<RawValue>, |v: Box<RawValue>| PVal::Any(v.get().to_string())),
@@ -103,6 +111,9 @@ fn whole<'a>(p: &'a Params<'a>, ty: &str, verb: &str) -> Got {
 fn plain(raw: &str, ty: &str) -> Option<PVal> {
 	match ty {
 		"u64" => serde_json::from_str::<u64>(raw).ok().map(PVal::U),
+		"u8" => serde_json::from_str::<u8>(raw).ok().map(|v| PVal::U(v as u64)),
+		"i64" => serde_json::from_str::<i64>(raw).ok().map(PVal::I),
+		"i32" => serde_json::from_str::<i32>(raw).ok().map(|v| PVal::I(v as i64)),
 		"str" => serde_json::from_str::<String>(raw).ok().map(PVal::S),
 		"bool" => serde_json::from_str::<bool>(raw).ok().map(PVal::B),
 		"any" => serde_json::from_str::<Box<RawValue>>(raw).ok().map(|v| PVal::Any(v.get().to_string())),
@@ -245,7 +256,7 @@ fn do_line(out: &mut Out, line: &str) {
 	}
 }
 
-const TYPES: [&str; 5] = ["u64", "str", "bool", "any", "vec"];
+const TYPES: [&str; 8] = ["u64", "str", "bool", "any", "vec", "u8", "i64", "i32"];
 
 fn gen_elem(rng: &mut Rng) -> String {
 	match rng.below(12) {
